@@ -291,6 +291,10 @@ pub fn test_cookie() -> DecodedServerCookie {
     }
 }
 
+#[cfg(pendulum_project_ntpd_rs_verif)]
+#[path = "/verif/hooks/ntp_proto/keyset_probe.rs"]
+mod verif_probe;
+
 #[cfg(test)]
 mod tests {
 
